@@ -69,7 +69,7 @@ func TestVerif_C08_FlvRead(t *testing.T) {
 	m.Rule("flvread: generated FLV files; EVERY cut offset 0..N under a PRNG segmentation and an injected sentinel at EVERY read call index under " +
 		"{whole, 1-byte}; expected = header iff 13 bytes delivered, exactly the tags wholly inside the prefix (header+body+PreviousTagSize), then a " +
 		"non-nil error with the transport's error as root cause; distinct = (file, fault position)")
-	n := m.N(40, 2000)
+	n := m.N(40, 12000)
 	m.Require("cut_offsets_enumerated", int64(n*30))
 	m.Require("read_call_indexes_enumerated", int64(n*30))
 	mon.Parallel(n, func(w, i int) {
@@ -178,7 +178,7 @@ func TestVerif_C08_FlvWrite(t *testing.T) {
 	m.Rule("flvwrite: header + tag sequences written by the muxer with the transport failing at EVERY write call index (with/without a short " +
 		"write): the operation in progress returns an error whose root cause is the sentinel and the bytes that reached the transport are a prefix " +
 		"of the fault-free file; distinct = (file, call index, short)")
-	n := m.N(60, 2000)
+	n := m.N(60, 12000)
 	m.Require("write_call_indexes_enumerated", int64(n*5))
 	mon.Parallel(n, func(w, i int) {
 		r := m.Rand("wfile", i)
